@@ -167,6 +167,17 @@ class SharedModelHistory:
         return gen.configs().map(lambda cfg: {"op": "init", "cfg": cfg})
 
     def apply(self, job):
+        if job.get("op") == "fail":
+            from vf import failing
+
+            failing.run_failing(self.model, job, self.trip)
+            self.ctx.called()
+            lab = "failed-call:" + job["kind"]
+            if lab not in self.labels:
+                self.labels.append(lab)
+            if snapshot(self.model) != self.before:
+                raise Violation("attr-changed-by-failed-call", f"{self.cfg['kind']} model attributes changed by a call that did not complete normally ({job['kind']}, {job['call_op']})")
+            return
         if job.get("interrupted") is not None:
             # a valid rate() call that does not complete: the user's gamma callback raises at its k-th invocation.  Whatever the call
             # leaves behind, it must not change what LATER calls on this model (or on any other model) return.
@@ -224,7 +235,14 @@ def _absurd(h):
     })
 
 
+def _failing(h):
+    from vf import failing
+
+    return failing.failing_specs(h.cfg)
+
+
 SharedModelHistory.RULES = {
+    "failed_call": _failing,
     "out_of_range_call": _absurd,
     "interrupted_call": lambda h: st.tuples(jobs_for(h.cfg, max_teams=4, max_size=3), st.integers(0, 5)).map(
         lambda jk: dict(jk[0], op="rate", call=jk[0].get("call", {}), interrupted=jk[1])),
@@ -371,6 +389,9 @@ def interleaving_cases(draw, min_pre=None):
 # clause 5: hash seed (children with different PYTHONHASHSEED)
 # ------------------------------------------------------------------------------------------------
 ORDERS = (("0", "forward"), ("1", "reverse"), ("2", "rotated"), ("4242", "evens-first"), ("random", "forward"))
+# ... and its own REPETITION of every call (the last repetition is the one compared): the k-th call of a process, a counter, a bounded
+# cache that has started to evict are reached at different calls in different children
+REPS = {("0", "forward"): 1, ("1", "reverse"): 2, ("2", "rotated"): 3, ("4242", "evens-first"): 1, ("random", "forward"): 5}
 
 
 def run_children(cases, tag):
@@ -387,7 +408,7 @@ def run_children(cases, tag):
         # survives a call anywhere in the process (module- or class-level caches, memoised helpers) makes the orders disagree
         for hs, order in ORDERS:
             env = dict(os.environ, PYTHONHASHSEED=hs)
-            p = subprocess.run([sys.executable, "-B", "-m", "vf.hashchild", path, order], capture_output=True, text=True, env=env, timeout=600)
+            p = subprocess.run([sys.executable, "-B", "-m", "vf.hashchild", path, order, str(REPS[(hs, order)])], capture_output=True, text=True, env=env, timeout=600)
             if p.returncode != 0:
                 raise HarnessError(f"hash-seed child failed: {p.stderr[-2000:]}")
             outs[(hs, order)] = json.loads(p.stdout)
